@@ -65,12 +65,12 @@ def cfg(mirror, **kw):
 def mc_configs(thorough, mirror):
     if thorough:
         return [
-            ("orders", cfg(mirror, maxwin=28800, maxslices=5, maxcells=12)),
-            ("align", cfg(mirror, maxwin=28800, maxslices=5, maxcells=12, startmode="lattice", quantum="half", order="fwdrev")),
-            ("two", cfg(mirror, steps=[3000, 3600, 6000, 7200], ns=2, maxwin=18000, maxslices=4, maxcells=6)),
-            ("halfcell", cfg(mirror, steps=[3000, 3600, 7200], celldiv=2, maxwin=14400, maxslices=3, maxcells=12,
+            ("orders", cfg(mirror, maxwin=21600, maxslices=5, maxcells=10)),
+            ("align", cfg(mirror, maxwin=18000, maxslices=4, maxcells=9, startmode="lattice", quantum="half", order="fwdrev")),
+            ("two", cfg(mirror, steps=[3000, 3600, 6000, 7200], ns=2, maxwin=14400, maxslices=4, maxcells=5)),
+            ("halfcell", cfg(mirror, steps=[3000, 3600, 7200], celldiv=2, maxwin=10800, maxslices=3, maxcells=10,
                              startmode="lattice", quantum="half", order="fwdrev")),
-            ("session", cfg(mirror, steps=[2400, 3000, 3600, 7200], maxwin=14400, maxslices=4, maxcells=9, deltas=[0, 2, 3, 4, 6])),
+            ("session", cfg(mirror, steps=[2400, 3000, 3600, 7200], maxwin=10800, maxslices=4, maxcells=8, deltas=[0, 2, 3, 4, 6])),
         ]
     return [
         ("orders", cfg(mirror, maxwin=18000, maxslices=4, maxcells=9)),
@@ -137,17 +137,16 @@ def generate(ctx, mirror):
     # BFS: sessions with a follow-up query through the cache; ends on / next to slice boundaries only
     # (quantum "slice"), where a cached last slice and the slices of the follow-up query interact
     bfs2 = ctx.tlc("RangeSlice", "c13_gen_sess.cfg", tag="gen-sess", timeout=3000, workers=w, heap=HEAP, files={
-        "c13_gen_sess.cfg": cfg(mirror, steps=[2400, 3000, 3600, 7200] if thorough else [2400, 3000],
-                                maxwin=14400 if thorough else 10800, maxslices=3, maxcells=9 if thorough else 7,
+        "c13_gen_sess.cfg": cfg(mirror, steps=[2400, 3000, 3600] if thorough else [2400, 3000],
+                                maxwin=10800, maxslices=3, maxcells=7,
                                 quantum="slice", order="all" if thorough else "fwdrev",
                                 deltas=[0, 2, 3, 4, 6] if thorough else [0, 2, 3, 4], inv="EmitCase", view="")})
     all_sess = [v[0] for v in prints(bfs2, "CASE") if len(v[0]["queries"]) > 1]
     add(sample(all_sess, 30000 if thorough else 3000))
     # BFS: two series, one sample per slice, every arrival order (the merge fix-point runs per series)
     bfs3 = ctx.tlc("RangeSlice", "c13_gen_two.cfg", tag="gen-two", timeout=3000, workers=w, heap=HEAP, files={
-        "c13_gen_two.cfg": cfg(mirror, steps=[7200] if not thorough else [3600, 7200], ns=2,
-                               maxwin=28800 if thorough else 21600, maxslices=5 if thorough else 4,
-                               maxcells=6 if thorough else 4, quantum="slice", inv="EmitCase", view="")})
+        "c13_gen_two.cfg": cfg(mirror, steps=[7200], ns=2, maxwin=21600, maxslices=4, maxcells=5 if thorough else 4,
+                               quantum="slice", inv="EmitCase", view="")})
     all_two = [v[0] for v in prints(bfs3, "CASE")]
     add(sample(all_two, 20000 if thorough else 1200))
     # simulation: wide vocabulary
@@ -270,7 +269,7 @@ def run(ctx, cases_override=None):
     return vlib.conclude(ctx, viols, "model_checking", cov, [
         "TLC model-checks Inv_C13 on the impl-shaped RangeSlice model exhaustively within the bounds of the MC configurations "
         "(steps 40m..2h, windows <= %s, every presence pattern, every arrival permutation / every lattice alignment, "
-        "follow-up queries through the cache)" % ("8h" if thorough else "5h"),
+        "follow-up queries through the cache)" % ("6h" if thorough else "5h"),
         "the verdict is computed by TLC from recorded outputs of the real promapi.FailoverGroup.RangeQuery only (Doc-side operators "
         "UnslicedOf / GapIffAbsent over the recorded window); every recorded step is also validated against the model (binding)",
         "server = harness/promfake presence model: a series has a sample at evaluation time t iff t's cell is present; "
